@@ -231,7 +231,9 @@ int drv_world(void) {
   if (getuid() == 0) {
     /* drop to an unprivileged user so that EACCES is the kernel's own */
     chown(g_root, 65534, 65534);
-    if (setgroups(0, NULL) || setgid(65534) || setuid(65534)) {
+    /* (the saved user id stays 0 so that `putforeign` can create a file owned by another user; the effective and
+       real ids - what the kernel's permission checks look at - are the unprivileged ones throughout) */
+    if (setgroups(0, NULL) || setgid(65534) || setresuid(65534, 65534, 0)) {
       perror("drop");
       return 2;
     }
@@ -320,12 +322,29 @@ int drv_world(void) {
         W.short_at = atol(t[2]);
         W.short_n = strtoul(t[3], NULL, 10);
       }
-    } else if (!strcmp(op, "put") || !strcmp(op, "append")) {
+    } else if (!strcmp(op, "put") || !strcmp(op, "append") || !strcmp(op, "putforeign")) {
+      /* putforeign: the file belongs to ANOTHER user (root) and is readable by everybody: a shared directory */
+      int foreign = !strcmp(op, "putforeign") && geteuid() != 0;
       char *p = abspath(t[1]);
       char *c = n > 2 ? unhex(t[2]) : strdup("");
       size_t len = n > 2 ? (strlen(t[2]) - 1) / 2 : 0;
       mkdirs_for(p);
+      if (foreign) {
+        unlink(p);
+        if (seteuid(0)) {
+          foreign = 0;
+        }
+      }
       int fd = open(p, O_WRONLY | O_CREAT | (op[0] == 'p' ? O_TRUNC : O_APPEND), 0644);
+      if (foreign) {
+        if (fd >= 0) {
+          fchmod(fd, 0644);
+        }
+        if (seteuid(65534)) {
+          perror("seteuid");
+          exit(2);
+        }
+      }
       if (fd >= 0) {
         if (write(fd, c, len) != (ssize_t)len) {
           perror("put");
